@@ -1412,6 +1412,13 @@ def rule_rio_layout(prog: Program) -> List[Instance]:
             out.append(Instance("R-GUARDSEQ", cid, OK if ok else BAD,
                                 "every block window is written (the write is unconditional in the loop body)" if ok else
                                 f"the windowed write `{short(writes[0], 50)}` is skipped on some iterations ({'continue/break before it' if skips else 'it sits under a condition'}): windows left unwritten read back as GDAL's default, not as the array's values", nf.where(writes[0])))
+    # (a3) every final copy names its driver: rasterio otherwise guesses it from the file name
+    copies = [(fi, n) for fi in prog.all_functions({"cog._rio"}) for n in walk_own(fi.node) if isinstance(n, ast.Call) and call_name(n) == "rio_copy"]
+    for k, (fi, n) in enumerate(copies):
+        has = any(kw.arg == "driver" for kw in n.keywords)
+        out.append(Instance("R-SIBLING", f"{fi.qual}#copy-driver:{k}", OK if has else BAD,
+                            "final copy names the GTiff driver" if has else
+                            f"`{short(n, 50)}` leaves the driver to be guessed from the destination's file name while the sibling copies pass driver=GTiff: names without .tif/.tiff fail ('Unable to detect driver') or silently produce another format", fi.where(n)))
     # (b)
     f = prog.func("cog._rio:write_cog_layers")
     org = Origins(f)
